@@ -93,8 +93,12 @@ def part_types(chk, c2m, model, d):
     # model expectations
     qs, keys = [], []
     n = len(G.TYPES)
+    fixed = {}
     for name in names:
         w = name.split()
+        if G.fixed_expect(name) is not None:
+            fixed[name] = G.fixed_expect(name)
+            continue
         if w[0] in ('conv', 'mul', 'cond', 'and'):
             qs.append('conv %s %s' % (G.TYPES[int(w[1])], G.TYPES[int(w[2])]))
         elif w[0] == 'shift':
@@ -120,6 +124,13 @@ def part_types(chk, c2m, model, d):
         c = t1.get(name)
         if c != g or G.ORD[mc2m] != exp:
             bad.append((name, c, g, mc2m, mc11))
+    for name, exp in fixed.items():
+        chk.count('A1:' + name, nontrivial=True)
+        chk.dist('A1_probe', name.split()[0])
+        if t2.get(name) != exp:
+            raise vlib.BuildError('C11 expectation disagrees with gcc on type probe %s: gcc %s, expected %s' % (name, t2.get(name), exp))
+        if t1.get(name) != exp:
+            bad.append((name, t1.get(name), exp, '-', G.TYPES[exp] if name.split()[0] != 'chrsize' else 'sizeof 4'))
     if rc1 != 0 and not bad:
         bad.append(('types.c', 'c2m rc=%d %s' % (rc1, (e1 + o1)[-300:]), 'gcc ok', '', ''))
     for name, c, g, mc2m, mc11 in bad[:5]:
@@ -127,12 +138,34 @@ def part_types(chk, c2m, model, d):
         desc = describe_type_probe(w, keep)
         chk.finding('type:' + desc, dict(kind='type', probe=name, expr=desc, c2m=c, gcc=g, model_c2m=mc2m, model_c11=mc11),
                     'result type of %s: c2m type id %s, gcc/C11 %s (%s)' % (desc, c, g, mc11))
+    # pinned implementation-defined choices: noticed, never an alarm
+    psrc = os.path.join(d, 'pins.c')
+    open(psrc, 'w').write(G.PIN_UNIT)
+    pc, pg = table(run_c2m(c2m, psrc, ('-ei',), d)[1]), table(run_gcc(psrc, d, 'pins')[1])
+    for name, (ec, eg) in sorted(G.PIN_EXPECT.items()):
+        same = pc.get(name) == ec and pg.get(name) == eg
+        chk.dist('A1_pinned_implementation_defined', 'as documented' if same else 'CHANGED')
+        if not same:
+            chk.notes.append('pinned implementation-defined choice %s changed: c2m %s (documented %s), gcc %s (documented %s); '
+                             'update design/C07.md' % (name, pc.get(name), ec, pg.get(name), eg))
     chk.sample('type probes: ' + ', '.join(describe_type_probe(n.split(), keep) for n in (names[0], names[200], names[-1])))
     return len(names), bad
 
 
 def describe_type_probe(w, keep):
     T = G.TYPES
+    if w[0] in ('glv', 'gcast', 'gclv'):
+        return '_Generic selection for %s %s' % ({'glv': 'an lvalue of type', 'gcast': 'a cast to', 'gclv': 'a const lvalue of type'}[w[0]],
+                                                G.CNAME[T[int(w[1])]])
+    if w[0] == 'chr':
+        return 'character constant %s' % G.CHAR_CONSTS[int(w[1])][0]
+    if w[0] == 'chrsize':
+        return "sizeof ('a')"
+    if w[0] == 'bfp':
+        t, wd = G.BF_PROM[int(w[1])]
+        return 'promotion of a bit-field `%s:%d` by %s' % (G.CNAME[t], wd, w[2])
+    if w[0] == 'types.c':
+        return 'types.c'
     if w[0] == 'lit':
         return 'constant ' + keep[int(w[1])][0][3]
     if w[0] == 'un':
